@@ -143,4 +143,5 @@ def jobs(tier: str) -> list[Job]:
     return [Job('histories', 'hyp', lambda: _build(tier), 2500 if tier == 'quick' else 120000),
             Job('comment-juggling', 'hyp', lambda: _build_juggle(tier), 1500 if tier == 'quick' else 60000),
             Job('list-sweep', 'enum', sweeps.list_sweep, exhaustive=True),
-            Job('slot-sweep', 'enum', sweeps.slot_sweep, exhaustive=True)]
+            Job('slot-sweep', 'enum', sweeps.slot_sweep, exhaustive=True),
+            Job('insert-then-edit', 'enum', sweeps.insert_then_edit, exhaustive=True)]
